@@ -46,9 +46,14 @@ func TestVerifC26PathNorm(t *testing.T) {
 			vfSample(vfRec{"in": in, "expect_parse": wantParse, "expect_setpath": wantSet})
 		}
 
+		// a string containing "://" is an absolute URI (scheme + authority) for every URI parser,
+		// not a path: only the SetPath entry points take it as a path
+		absolute := strings.Contains(in, "://")
+
 		// (1) URI.Parse with a host: the path ends at the first '?' or '#'
 		var u URI
-		if err := u.Parse([]byte("example.com"), []byte(in)); err != nil {
+		if absolute {
+		} else if err := u.Parse([]byte("example.com"), []byte(in)); err != nil {
 			vfViol(c26Key("parse", in), "URI.Parse returned error "+err.Error(), vfRec{"in": in})
 		} else if got := string(u.Path()); got != wantParse {
 			vfViol(c26Key("parse", in), fmt.Sprintf("URI.Parse(%q).Path() = %q, reference %q", in, got, wantParse),
@@ -77,7 +82,7 @@ func TestVerifC26PathNorm(t *testing.T) {
 		var req Request
 		req.Header.SetHost("example.com")
 		req.SetRequestURI(in)
-		if got := string(req.URI().Path()); got != wantParse {
+		if got := string(req.URI().Path()); got != wantParse && !absolute {
 			vfViol(c26Key("requri", in), fmt.Sprintf("Request.SetRequestURI(%q).URI().Path() = %q, reference %q", in, got, wantParse),
 				vfRec{"in": in, "got": got, "want": wantParse})
 		}
